@@ -296,15 +296,15 @@ def build(prog):
         elif code == "B2":      # declared from a numpy object array that the user re-uses for a second LMI
             buf = np.empty((2, 2), dtype=object)
             buf[0, 0], buf[0, 1], buf[1, 0], buf[1, 1] = dd + 1, t, t, 1
-            m = pep.add_psd_matrix(buf)
+            m_first = pep.add_psd_matrix(buf)
             b.held["t%d" % k] = t
-            b.held["lmi%d" % k] = m
+            b.held["lmi%d" % k] = m_first
             t2 = Expression()
             buf[0, 1] = buf[1, 0] = t2
             buf[0, 0] = dd + 2
-            m2 = pep.add_psd_matrix(buf)
+            m_second = pep.add_psd_matrix(buf)
             b.held["t%db" % k] = t2
-            b.held["lmi%db" % k] = m2
+            b.held["lmi%db" % k] = m_second
             continue
         elif code == "F2":      # function-level LMI
             M = [[dd + 1, t], [t, 1]]
